@@ -106,8 +106,17 @@ class C11(Prop):
             rule = ["KARV", "PRV"][i % 2]
             k = rng.randint(1, min(3, m)) if rule == "KARV" else rng.randint(1, m)
             P, Vv = E.gen_pair(rng, n, m, rng.choice(["unit", "unit", "skew", "bigint"]), k)
+            if i % 5 == 3:      # one alternative everybody ranks first and values many orders of magnitude above the rest (scores of very different size side by side)
+                d = rng.randrange(m); big = rng.choice([1e15, 1e17, 3e20, 1e300])
+                P = []; Vv = []
+                for _ in range(n):
+                    rest = [j for j in range(m) if j != d]; rng.shuffle(rest); order = [d] + rest
+                    rk = [0] * m; vv = [0.0] * m
+                    vals = sorted([rng.choice([0.5, 1.0, 2.0, 2.5, 3.0, 5.0]) for _ in rest], reverse=True)
+                    for pos, j in enumerate(order): rk[j] = pos + 1; vv[j] = big if pos == 0 else vals[pos - 1]
+                    P.append(rk); Vv.append(vv)
             pv = list(range(n)); rng.shuffle(pv); pa = list(range(m)); rng.shuffle(pa)
-            yield dict(entry={"KARV": "KARV.symmetry", "PRV": "LambdaPRV.symmetry"}[rule], family="elicit", rule=rule, P=P, V=Vv, pv=pv, pa=pa, k=k,
+            yield dict(entry={"KARV": "KARV.symmetry", "PRV": "LambdaPRV.symmetry"}[rule], family=("elicit_dominant" if i % 5 == 3 else "elicit"), rule=rule, P=P, V=Vv, pv=pv, pa=pa, k=k,
                        zi=True, tb="accept", want_out=True, eclass="profile")
 
     def variants(self, case):
@@ -134,7 +143,7 @@ class C11(Prop):
         return dict(status=("ok" if all(x["status"] == "ok" for x in (o, ov, oa)) else "err"), base=o, voters=ov, alts=oa)
 
     def run(self, case):
-        if case["family"] == "elicit":
+        if case["family"].startswith("elicit"):
             return self.run_elicit(case)
         key, Mv, Ma = self.variants(case)
         o = V.run_vote(case)
